@@ -220,16 +220,28 @@ func NewSSet() SSet {
 }
 
 func SSetHasKey(st SSet, key string) bool {
-	v, ok := frt.Destr2(dict.TryFind(st.Dict, key))
-	return (ok && v)
+	_, ok := frt.Destr2(dict.TryFind(st.Dict, key))
+	return ok
 }
 
 func SSetPut(st SSet, key string) {
 	dict.Add(st.Dict, key, true)
 }
 
-func SSetRemove(st SSet, key string) {
-	dict.Add(st.Dict, key, false)
+type TMemo struct {
+	Dict dict.Dict[string, FType]
+}
+
+func NewTMemo() TMemo {
+	return TMemo{Dict: dict.New[string, FType]()}
+}
+
+func TMemoTryFind(tm TMemo, key string) frt.Tuple2[FType, bool] {
+	return dict.TryFind(tm.Dict, key)
+}
+
+func TMemoPut(tm TMemo, key string, ft FType) {
+	dict.Add(tm.Dict, key, ft)
 }
 
 func collectTVarFTypeWithSet(visited SSet, ft FType) []string {
@@ -251,7 +263,7 @@ func collectTVarFTypeWithSet(visited SSet, ft FType) []string {
 		rt := _v9.Value
 		rkey := rtToKey(rt)
 		return frt.IfElse(SSetHasKey(visited, rkey), (func() []string {
-			return frt.Pipe(rt.Targs, (func(_r0 []FType) []string { return slice.Collect(recurse, _r0) }))
+			return slice.New[string]()
 		}), (func() []string {
 			SSetPut(visited, rkey)
 			ri := lookupRecInfo(rt)
@@ -260,7 +272,6 @@ func collectTVarFTypeWithSet(visited SSet, ft FType) []string {
 					return _v1.Ftype
 				}, _r0)
 			})), (func(_r0 []FType) []string { return slice.Collect(recurse, _r0) }))
-			SSetRemove(visited, rkey)
 			tres := frt.Pipe(rt.Targs, (func(_r0 []FType) []string { return slice.Collect(recurse, _r0) }))
 			return slice.Append(fres, tres)
 		}))
@@ -271,13 +282,11 @@ func collectTVarFTypeWithSet(visited SSet, ft FType) []string {
 			return slice.New[string]()
 		}), (func() []string {
 			SSetPut(visited, uname)
-			res := frt.Pipe(frt.Pipe(utCases(ut), (func(_r0 []NameTypePair) []FType {
+			return frt.Pipe(frt.Pipe(utCases(ut), (func(_r0 []NameTypePair) []FType {
 				return slice.Map(func(_v2 NameTypePair) FType {
 					return _v2.Ftype
 				}, _r0)
 			})), (func(_r0 []FType) []string { return slice.Collect(recurse, _r0) }))
-			SSetRemove(visited, uname)
-			return res
 		}))
 	case FType_FFunc:
 		fnt := _v9.Value
@@ -439,8 +448,8 @@ func collectTVarBlockFacade(b Block) []string {
 	return collectTVarBlock(collE, collS, b)
 }
 
-func transTVFTypeWithSet(visited SSet, transTV func(TypeVar) FType, ftp FType) FType {
-	recurse := (func(_r0 FType) FType { return transTVFTypeWithSet(visited, transTV, _r0) })
+func transTVFTypeWithSet(memo TMemo, transTV func(TypeVar) FType, ftp FType) FType {
+	recurse := (func(_r0 FType) FType { return transTVFTypeWithSet(memo, transTV, _r0) })
 	switch _v17 := (ftp).(type) {
 	case FType_FTypeVar:
 		tv := _v17.Value
@@ -467,24 +476,27 @@ func transTVFTypeWithSet(visited SSet, transTV func(TypeVar) FType, ftp FType) F
 	case FType_FRecord:
 		rt := _v17.Value
 		rkey := rtToKey(rt)
-		return frt.IfElse(SSetHasKey(visited, rkey), (func() FType {
-			return ftp
+		memoed, ok := frt.Destr2(TMemoTryFind(memo, rkey))
+		return frt.IfElse(ok, (func() FType {
+			return memoed
 		}), (func() FType {
-			SSetPut(visited, rkey)
+			TMemoPut(memo, rkey, ftp)
 			ri := lookupRecInfo(rt)
 			ntps := frt.Pipe(slice.Map(func(_v1 NameTypePair) FType {
 				return _v1.Ftype
 			}, ri.Fields), (func(_r0 []FType) []FType { return slice.Map(recurse, _r0) }))
-			SSetRemove(visited, rkey)
-			return frt.Pipe(newRecTypeWith(ntps, recurse, rt), New_FType_FRecord)
+			res := frt.Pipe(newRecTypeWith(ntps, recurse, rt), New_FType_FRecord)
+			TMemoPut(memo, rkey, res)
+			return res
 		}))
 	case FType_FUnion:
 		ut := _v17.Value
 		uname := uniToKey(ut)
-		return frt.IfElse(SSetHasKey(visited, uname), (func() FType {
-			return ftp
+		memoed, ok := frt.Destr2(TMemoTryFind(memo, uname))
+		return frt.IfElse(ok, (func() FType {
+			return memoed
 		}), (func() FType {
-			SSetPut(visited, uname)
+			TMemoPut(memo, uname, ftp)
 			cases := utCases(ut)
 			ntps := frt.Pipe(slice.Map(func(_v2 NameTypePair) FType {
 				return _v2.Ftype
@@ -497,12 +509,13 @@ func transTVFTypeWithSet(visited SSet, transTV func(TypeVar) FType, ftp FType) F
 					return newNTPair(frt.Fst(tp), frt.Snd(tp))
 				}, _r0)
 			}))
-			SSetRemove(visited, uname)
 			ntargs := slice.Map(recurse, ut.Targs)
 			nut := UnionType{Name: ut.Name, Targs: ntargs}
 			nui := UnionTypeInfo{Cases: ncases}
 			updateUniInfo(nut, nui)
-			return New_FType_FUnion(nut)
+			res := New_FType_FUnion(nut)
+			TMemoPut(memo, uname, res)
+			return res
 		}))
 	default:
 		return ftp
@@ -510,8 +523,8 @@ func transTVFTypeWithSet(visited SSet, transTV func(TypeVar) FType, ftp FType) F
 }
 
 func transTVFType(transTV func(TypeVar) FType, ftp FType) FType {
-	visited := NewSSet()
-	return transTVFTypeWithSet(visited, transTV, ftp)
+	memo := NewTMemo()
+	return transTVFTypeWithSet(memo, transTV, ftp)
 }
 
 func transTVVar(transTV func(TypeVar) FType, v Var) Var {
